@@ -1005,7 +1005,8 @@ def gen_program(rng, fns, with_reset=False, paren_free=False):
                 # (a barrier as the FIRST body statement is rejected by the grammar: known finding, kept rare)
                 body.append('  barrier ' + ', '.join(rng.sample(qs, rng.randint(1, nq))) + ';')
             else:
-                n, (p, a) = rng.choice(cands)
+                nested = [(n, a) for n, a in customs.items() if a[1] <= nq]
+                n, (p, a) = rng.choice(nested) if nested and rng.random() < 0.35 else rng.choice(cands)
                 args = ', '.join(rng.sample(qs, a))
                 ps = ', '.join(pexp(rng.choice([1, 2, 3]), formals) for _ in range(p))
                 body.append(f'  {n}' + (f'({ps})' if p else ('()' if rng.random() < 0.1 else '')) + f' {args};')
@@ -1203,7 +1204,7 @@ def check_roundtrip(ck: Checker, circ, key, label=None):
         ctx.violation(dict(call='encode', symptom='raises', gate=label), dict(kind='roundtrip', ops=_ops_repr(circ)),
                       'qasm text', repr(e)[:200], 'encoder raises on a circuit over gates that have a QASM spelling')
         return None
-    case = dict(kind='roundtrip', text=text, ops=_ops_repr(circ))
+    case = dict(kind='roundtrip', text=text, ops=_ops_repr(circ), n=circ.num_qudits)
     try:
         back = I.L.decode(text)
     except Exception as e:  # noqa
@@ -1240,8 +1241,35 @@ def check_roundtrip(ck: Checker, circ, key, label=None):
     return text
 
 
+def _spelling(g):
+    try:
+        return g.qasm_name
+    except Exception:  # noqa
+        return None
+
+
 def _ops_repr(circ):
-    return [dict(gate=repr(op.gate)[:50], loc=list(op.location), params=[float(p) for p in op.params]) for op in circ]
+    return [dict(gate=repr(op.gate)[:50], qasm=_spelling(op.gate), loc=list(op.location), params=[float(p) for p in op.params])
+            for op in circ]
+
+
+def rebuild(I: Impl, case):
+    """circuit of a stored round-trip / translator case: gates are looked up by their QASM spelling among the
+    library gates (None if an operation is not a plain library gate, e.g. a CircuitGate)"""
+    import gen_qasm_table as G
+    T = G.collect()
+    by = {}
+    for g in T['lib']:
+        if g['spelling'] is not None:
+            by.setdefault(g['spelling'], T['gates'][g['gate']])
+    n = case.get('n') or (1 + max(max(o['loc']) for o in case['ops']))
+    c = I.Circuit(n)
+    for o in case['ops']:
+        g = by.get(o.get('qasm'))
+        if g is None or g.num_params != len(o['params']):
+            return None
+        c.append_gate(g, o['loc'], o['params'])
+    return c
 
 
 def gen_rt_circuit(I: Impl, rng, pool, n, nops):
@@ -1296,6 +1324,8 @@ DIRECTED_PROGRAMS = [
     ('nested-gates', 'OPENQASM 2.0;\ninclude "qelib1.inc";\nqreg q[2];\nqreg r[1];\n'
                      'gate g(a,b) x,y { rx(a) x; ry(b*2) y; CX x,y; U(a,b,a+b) y; }\n'
                      'gate k(t) v,w { g(t/2, -t) w, v; rz(t) v; }\nk(1.5) r[0], q[1];\nk(-pi/3) q[0], q[1];\n'),
+    ('nested-same-arity', 'OPENQASM 2.0;\ninclude "qelib1.inc";\nqreg q[2];\ngate g(a) x { rx(a) x; }\n'
+                          'gate k(t) y { g(2*t+1) y; }\ngate m(s) y, z { k(-s) z; g(s/3) y; cx y, z; }\nm(0.4) q[1], q[0];\n'),
     ('dup-formal-index', 'OPENQASM 2.0;\ninclude "qelib1.inc";\nqreg q[1];\ngate g(a,b,c) x { u3(c,a,b) x; rz(b-a) x; }\ng(0.1,0.2,0.3) q[0];\n'),
 ]
 
@@ -1475,6 +1505,10 @@ def check_translators(ck: Checker, count: int):
              G.RZGate(), G.CNOTGate(), G.CZGate(), G.SwapGate(), G.U3Gate(), G.U2Gate(), G.U1Gate(), G.CCXGate(), G.CHGate(),
              G.CYGate(), G.CRZGate()]
     pool = [(g, type(g).__name__, g.qasm_name) for g in basic]
+    # Cirq prints angles with 10 decimals and KAK-decomposes gates it has no QASM name for; near-identity
+    # gates then lose ~sqrt(1e-10) accuracy inside Cirq.  Its pool is restricted to gates it prints natively.
+    native = {'h', 'x', 'y', 'z', 's', 'sdg', 't', 'tdg', 'rx', 'ry', 'rz', 'cx', 'cz', 'swap', 'ccx'}
+    cirq_pool = [p for p in pool if p[2] in native]
     try:
         from bqskit.ext import bqskit_to_qiskit, qiskit_to_bqskit, bqskit_to_cirq, cirq_to_bqskit, bqskit_to_pytket, pytket_to_bqskit
         from qiskit.quantum_info import Operator
@@ -1486,38 +1520,62 @@ def check_translators(ck: Checker, count: int):
     ctx.cov['translator_gate_set'] = sorted(p[2] for p in pool)
     for i in range(count):
         n = rng.randint(1, 4)
-        c = gen_rt_circuit(I, rng, pool, n, rng.randint(1, 8))
-        if c.num_operations == 0:
-            continue
-        U = np.array(c.get_unitary().numpy)
-        case = dict(kind='translator', ops=_ops_repr(c), n=n)
-        ctx.case(('tr', i, repr(case)), nontrivial=c.num_operations > 0)
-        for name, fwd, back, uni, tol in (
-            ('qiskit', bqskit_to_qiskit, qiskit_to_bqskit, lambda x: np.array(Operator(x.reverse_bits()).data), 1e-9),
-            ('cirq', bqskit_to_cirq, cirq_to_bqskit, lambda x: x.unitary(qubit_order=sorted(x.all_qubits())) if len(x.all_qubits()) == n else None, 1e-7),
-            ('pytket', bqskit_to_pytket, pytket_to_bqskit, lambda x: np.array(x.get_unitary()), 1e-9),
-        ):
-            try:
-                ext = fwd(c)
-                W = uni(ext)
-                c2 = back(ext)
-            except Exception as e:  # noqa
-                ctx.violation(dict(call='ext.' + name, symptom='raises'), case, 'translates', repr(e)[:200],
-                              f'bqskit.ext {name} translator raises on a small circuit over standard gates')
+        for name, fwd, back, uni, tol in translator_table(np, n):
+            c = I.Circuit(n)
+            for _ in range(rng.randint(1, 8)):
+                g = rng.choice(cirq_pool if name == 'cirq' else pool)[0]
+                if g.num_qudits <= n:
+                    c.append_gate(g, rng.sample(range(n), g.num_qudits), [rng.uniform(-3, 3) for _ in range(g.num_params)])
+            if c.num_operations == 0:
                 continue
-            ctx.count('translator_' + name)
-            if W is not None:
-                d = phase_dist(np, U, W)
-                if d > tol:
-                    ctx.violation(dict(call='ext.' + name, symptom='unitary-differs'), case, 'same unitary up to phase', f'{d:.3e}',
-                                  f'bqskit_to_{name} changes the unitary')
-            if c2.num_qudits == n:
-                d = phase_dist(np, U, np.array(c2.get_unitary().numpy))
-                if d > max(tol, 1e-7):
-                    ctx.violation(dict(call='ext.' + name, symptom='roundtrip-differs'), case, 'same unitary up to phase', f'{d:.3e}',
-                                  f'{name}_to_bqskit(bqskit_to_{name}(c)) changes the unitary')
-            else:
-                ctx.count('translator_%s_dropped_idle_qubits' % name)
+            U = np.array(c.get_unitary().numpy)
+            case = dict(kind='translator', ops=_ops_repr(c), n=n)
+            ctx.case(('tr', name, i, repr(case)), nontrivial=True)
+            compare_translator(ck, name, fwd, back, uni, tol, c, U, case, n)
+
+
+def translator_table(np, n):
+    from bqskit.ext import bqskit_to_qiskit, qiskit_to_bqskit, bqskit_to_cirq, cirq_to_bqskit, bqskit_to_pytket, pytket_to_bqskit
+    from qiskit.quantum_info import Operator
+    return (
+        ('qiskit', bqskit_to_qiskit, qiskit_to_bqskit, lambda x: np.array(Operator(x.reverse_bits()).data), 1e-9),
+        ('cirq', bqskit_to_cirq, cirq_to_bqskit, lambda x: x.unitary(qubit_order=sorted(x.all_qubits())) if len(x.all_qubits()) == n else None, 1e-7),
+        ('pytket', bqskit_to_pytket, pytket_to_bqskit, lambda x: np.array(x.get_unitary()), 1e-9),
+    )
+
+
+def compare_translator(ck, name, fwd, back, uni, tol, c, U, case, n):
+    ctx, np = ck.ctx, ck.I.np
+    try:
+        ext = fwd(c)
+        W = uni(ext)
+        c2 = back(ext)
+    except Exception as e:  # noqa
+        ctx.violation(dict(call='ext.' + name, symptom='raises'), case, 'translates', repr(e)[:200],
+                      f'bqskit.ext {name} translator raises on a small circuit over standard gates')
+        return
+    ctx.count('translator_' + name)
+    if W is not None:
+        d = phase_dist(np, U, W)
+        if d > tol:
+            ctx.violation(dict(call='ext.' + name, symptom='unitary-differs'), case, 'same unitary up to phase', f'{d:.3e}',
+                          f'bqskit_to_{name} changes the unitary')
+    if c2.num_qudits == n:
+        d = phase_dist(np, U, np.array(c2.get_unitary().numpy))
+        if d > max(tol, 1e-7):
+            ctx.violation(dict(call='ext.' + name, symptom='roundtrip-differs'), case, 'same unitary up to phase', f'{d:.3e}',
+                          f'{name}_to_bqskit(bqskit_to_{name}(c)) changes the unitary')
+    else:
+        ctx.count('translator_%s_dropped_idle_qubits' % name)
+
+
+def replay_translators(ck: Checker, circ, case):
+    np = ck.I.np
+    n = circ.num_qudits
+    U = np.array(circ.get_unitary().numpy)
+    ck.ctx.case(('replay-tr', repr(case)))
+    for name, fwd, back, uni, tol in translator_table(np, n):
+        compare_translator(ck, name, fwd, back, uni, tol, circ, U, dict(case, translator=name), n)
 
 
 def run_case(ck: Checker, M: Model, c: dict, key):
@@ -1549,6 +1607,12 @@ def run_case(ck: Checker, M: Model, c: dict, key):
         ck.expression(M, c['text'], sem, fval(sem), key)
     elif kind == 'program':
         check_program(ck, M, c['text'], dict(has_reset='reset' in c['text']), key)
+    elif kind == 'translator':
+        circ = rebuild(ck.I, c)
+        if circ is not None:
+            replay_translators(ck, circ, c)
+    elif kind == 'roundtrip' and 'ops' in c and rebuild(ck.I, c) is not None:
+        check_roundtrip(ck, rebuild(ck.I, c), key)
     elif kind == 'roundtrip' and 'text' in c:
         # the circuit is rebuilt by decoding the stored text with the implementation (table gates only)
         try:
